@@ -63,9 +63,10 @@ type c10Fix struct {
 	blocked  bool // the hub of this child no longer serves (liveness probe failed): the child must be replaced
 }
 
-// dial opens a websocket connection to the hub.  Not hdSystem.connect: the reader of the shared hub
-// driver answers every dial-out request by itself (hdClient.answerDialout, for the hub properties),
-// here the request must stay pending until the frame under test arrives (state 4).
+// dial opens a websocket connection to the hub (like hdSystem.connect, but with a bound on the
+// handshake and an error instead of the end of the test: the liveness probe connects to a hub that may
+// serve nobody any more; the reader never answers a dial-out request by itself - in state 4 the request
+// must stay pending until the frame under test arrives).
 func (f *c10Fix) dial(handshake time.Duration) (*hdClient, error) {
 	f.nextConn++
 	u := "ws" + strings.TrimPrefix(f.sys.server.URL, "http") + "/spreed"
@@ -160,23 +161,44 @@ func (f *c10Fix) probeLive() (live bool, note string) {
 		return false, "a new connection was not accepted within the bound: " + err.Error()
 	}
 	conn := c.conn
-	welcome := false
-	deadline := time.Now().Add(c10LiveBound)
-	for !welcome && time.Now().Before(deadline) && !c.isClosed() {
+	welcome := func() bool {
 		c.mu.Lock()
+		defer c.mu.Unlock()
 		for _, m := range c.msgs {
 			var sm ServerMessage
 			if sm.UnmarshalJSON(m) == nil && sm.Type == "welcome" && sm.Welcome != nil {
-				welcome = true
+				return true
 			}
 		}
-		c.mu.Unlock()
-		if !welcome {
-			time.Sleep(100 * time.Microsecond)
+		return false
+	}
+	start := time.Now()
+	stuck := false
+	for !welcome() && !stuck && time.Since(start) < c10LiveBound && !c.isClosed() {
+		time.Sleep(100 * time.Microsecond)
+		// Not greeted after a second (normally: well under a millisecond): look at the hub's lock.  When it
+		// cannot be taken at any of 100 attempts spread over half a second, somebody holds it for good (the
+		// hub holds it for microseconds) and there is no point in waiting for the rest of the bound.
+		if time.Since(start) > time.Second && time.Since(start) < c10LiveBound-time.Second {
+			stuck = true
+			for i := 0; i < 100 && stuck && !welcome(); i++ {
+				if f.sys.hub.mu.TryLock() {
+					f.sys.hub.mu.Unlock()
+					stuck = false
+				} else {
+					time.Sleep(5 * time.Millisecond)
+				}
+			}
+			if !stuck {
+				time.Sleep(20 * time.Millisecond)
+			}
 		}
 	}
-	if !welcome {
+	if !welcome() {
 		conn.Close()
+		if stuck {
+			return false, "a new connection did not get the welcome message (1.5 s; the hub's lock was held all the time)"
+		}
 		return false, "a new connection did not get the welcome message within the bound"
 	}
 	// ... is served (the marker is answered) and is forgotten again when it closes
